@@ -626,22 +626,29 @@ func ruleGateProtoMux(c *Ctx) {
 			if s, ok := constString(info, at.Y); !ok || s != "grpc" {
 				continue
 			}
-			ee := e
-			if g.OnlyViaEdge(e.To, func(x *Edge) bool {
+			// the test is reached only with the multiplexing flag known to be set
+			if g.OnlyViaEdge(e.From, func(x *Edge) bool {
 				a2, ok := edgeAtom(info, x)
 				return ok && a2.Kind == "bool" && a2.True && SelField(info, a2.X) == muxF
-			}) || true {
-				_ = ee
-				// require the mux flag to dominate
-				if g.DominatedBy(e.From, func(x *Node) bool {
-					for _, se := range x.Succs {
-						a2, ok := edgeAtom(info, se)
-						if ok && a2.Kind == "bool" && SelField(info, a2.X) == muxF {
-							return true
-						}
-					}
-					return false
-				}) {
+			}) {
+				entry = append(entry, e.To)
+			}
+		}
+	}
+	if len(entry) == 0 {
+		// the conjunction written the other way round: protocol == grpc && GRPCBrokerMultiplex
+		isProtoEdge := func(x *Edge) bool {
+			a2, ok := edgeAtom(info, x)
+			if !ok || a2.Kind != "cmp" || a2.Op != token.EQL || SelField(info, a2.X) != protoF {
+				return false
+			}
+			sv, isS := constString(info, a2.Y)
+			return isS && sv == "grpc"
+		}
+		for _, m := range g.Nodes {
+			for _, e := range m.Succs {
+				a2, ok := edgeAtom(info, e)
+				if ok && a2.Kind == "bool" && a2.True && SelField(info, a2.X) == muxF && g.OnlyViaEdge(e.From, isProtoEdge) {
 					entry = append(entry, e.To)
 				}
 			}
@@ -671,7 +678,16 @@ func ruleGateProtoMux(c *Ctx) {
 	// receive to a commit evaluates the multiplexing request
 	if !si.gatePass(func(e *Edge) bool {
 		at, isAt := edgeAtom(info, e)
-		return isAt && at.Kind == "bool" && SelField(info, at.X) == muxF
+		if isAt && at.Kind == "bool" && SelField(info, at.X) == muxF {
+			return true
+		}
+		// protocol == grpc && GRPCBrokerMultiplex: on a protocol other than gRPC
+		// the request is evaluated by the protocol test alone
+		if isAt && at.Kind == "cmp" && at.Op == token.NEQ && SelField(info, at.X) == protoF {
+			sv, isS := constString(info, at.Y)
+			return isS && sv == "grpc"
+		}
+		return false
 	}) {
 		okPass = false
 	}
